@@ -3,16 +3,29 @@
 EXTENDS Results, Json
 
 (* the stored series the unit tests use ('t': [0, 1, 2]) plus a second one *)
-MC_InitStore == [t |-> << 0, 1, 2 >>, x |-> << 4, 5, 6 >>]
+(* the step-trace and initial-steady-state groups are empty holders, as after any ordinary run *)
+MC_InitStore == [main |-> [t |-> << 0, 1, 2 >>, x |-> << 4, 5, 6 >>], step |-> << >>, initial |-> << >>]
+(* a run with TraceStep set: the step group holds x (two sweeps) but no t *)
+MC_StepStore == [main |-> [t |-> << 0, 1, 2 >>, x |-> << 4, 5, 6 >>], step |-> [x |-> << 8, 9 >>], initial |-> << >>]
 (* the BaseSolver object of test_base_solver.py; harness/checks/c16.py builds the same *)
 MC_BaseStore == [x |-> << 1, 1, 1 >>, y |-> << 2, 2, 2 >>, t |-> << 0, 1, 2 >>]
 
 (* a ragged store: t has 5 points (an exogenous series after an interrupted run), x 3 *)
-MC_RaggedStore == [t |-> << 0, 1, 2, 3, 4 >>, x |-> << 4, 5, 6 >>]
+MC_RaggedStore == [main |-> [t |-> << 0, 1, 2, 3, 4 >>, x |-> << 4, 5, 6 >>], step |-> << >>, initial |-> << >>]
 MC_ExtNone == {}
 MC_ExtX == { "x" }
 MC_ExtBoth == { "t", "x" }
 MC_CutsRagged == { NoCut, 3 }       \* 3 truncates t and is beyond the last point of x
+
+(* what Get asks for.  "q" is stored nowhere (a typo); "t" / "x" asked of the step or initial group are  *)
+(* main-group names asked of a group that does not hold them: these retrievals fail                    *)
+MC_AsksMain == { << "main", "t" >>, << "main", "x" >> }
+MC_AsksMiss == { << "main", "t" >>, << "main", "q" >>, << "step", "t" >>, << "initial", "q" >> }
+MC_AsksMissAll == { << "main", "t" >>, << "main", "x" >>, << "main", "q" >>,
+                    << "step", "t" >>, << "step", "x" >>, << "step", "q" >>,
+                    << "initial", "t" >>, << "initial", "q" >> }
+MC_RMain == { "main" }
+MC_RMainStep == { "main", "step" }
 
 MC_VarListsOne == { << "x", "y", "t" >> }
 MC_VarListsAll == { << "x", "y", "t" >>, << "t", "x" >>, << "y", "x" >> }
